@@ -50,6 +50,11 @@ pub enum Op {
         #[serde(default)]
         same_buffer: bool,
     },
+    /// a gathered write: the plaintext is offered as several slices to `poll_write_vectored`
+    WriteVectored {
+        bufs: Vec<HexBytes>,
+        tw: Vec<TW>,
+    },
     Switch,
     /// the switch happens while the caller already holds bytes it read ahead of it (a client that
     /// pipelines behind its Encryption Response): they are decrypted in place with `decrypt_buffered`
@@ -66,6 +71,9 @@ pub enum Op {
         prefill: usize,
     },
 }
+
+#[derive(Clone, Debug, Serialize, Deserialize, PartialEq)]
+pub struct HexBytes(#[serde(with = "hexser")] pub Vec<u8>);
 
 #[derive(Clone, Debug, Serialize, Deserialize, PartialEq)]
 pub struct UnitSc {
@@ -118,6 +126,14 @@ impl AsyncWrite for ScriptT {
     }
     fn poll_shutdown(self: Pin<&mut Self>, _cx: &mut Context<'_>) -> Poll<io::Result<()>> {
         Poll::Ready(Ok(()))
+    }
+    // like a real socket the transport takes gathered writes (so a wrapper that merely forwards them shows)
+    fn is_write_vectored(&self) -> bool {
+        true
+    }
+    fn poll_write_vectored(self: Pin<&mut Self>, cx: &mut Context<'_>, bufs: &[io::IoSlice<'_>]) -> Poll<io::Result<usize>> {
+        let all: Vec<u8> = bufs.iter().flat_map(|b| b.iter().copied()).collect();
+        self.poll_write(cx, &all)
     }
 }
 
@@ -204,6 +220,49 @@ pub fn run_unit(sc: &UnitSc) -> RunReport {
                 *rep.faults.entry("bytes_read_ahead_of_the_switch".into()).or_insert(0) += 1;
                 trace.write_str("switch_ahead");
                 trace.write_u64(ahead.len() as u64);
+            }
+            Op::WriteVectored { bufs, tw } => {
+                ts.borrow_mut().wq = tw.clone().into();
+                let mut rest: Vec<Vec<u8>> = bufs.iter().map(|b| b.0.clone()).filter(|b| !b.is_empty()).collect();
+                let mut polls = 0;
+                *rep.faults.entry("gathered_write".into()).or_insert(0) += 1;
+                trace.write_str("wv");
+                while !rest.is_empty() && polls < 64 {
+                    polls += 1;
+                    let slices: Vec<std::io::IoSlice<'_>> = rest.iter().map(|b| std::io::IoSlice::new(b)).collect();
+                    match Pin::new(&mut cs).poll_write_vectored(&mut cx, &slices) {
+                        Poll::Pending => {
+                            trace.write_str("wp");
+                            *rep.faults.entry("transport_write_pending".into()).or_insert(0) += 1;
+                        }
+                        Poll::Ready(Ok(n)) => {
+                            let total: usize = rest.iter().map(|b| b.len()).sum();
+                            if n == 0 || n > total {
+                                rep.violate("write_count", format!("poll_write_vectored returned {n} for {total} bytes offered"));
+                                return rep;
+                            }
+                            if wswitch.is_some() {
+                                faults_after_switch = true;
+                            }
+                            let mut left = n;
+                            while left > 0 {
+                                let take = left.min(rest[0].len());
+                                plain_written.extend_from_slice(&rest[0][..take]);
+                                rest[0].drain(..take);
+                                if rest[0].is_empty() {
+                                    rest.remove(0);
+                                }
+                                left -= take;
+                            }
+                            trace.write_u64(n as u64);
+                        }
+                        Poll::Ready(Err(e)) => {
+                            rep.violate("write_error", format!("unexpected error {e}"));
+                            return rep;
+                        }
+                    }
+                }
+                ts.borrow_mut().wq.clear();
             }
             Op::Write { data, tw, retry_other, same_buffer } => {
                 ts.borrow_mut().wq = tw.clone().into();
@@ -401,7 +460,14 @@ fn gen_unit(rng: &mut Rng) -> UnitSc {
                 None
             };
             let same_buffer = retry_other.is_some() && rng.chance(1, 2);
-            ops.push(Op::Write { data, tw, retry_other, same_buffer });
+            if retry_other.is_none() && rng.chance(1, 6) {
+                // the same bytes offered as two or three slices
+                let a = rng.usize_below(data.len() + 1);
+                let b = a + rng.usize_below(data.len() - a + 1);
+                ops.push(Op::WriteVectored { bufs: vec![HexBytes(data[..a].to_vec()), HexBytes(data[a..b].to_vec()), HexBytes(data[b..].to_vec())], tw });
+            } else {
+                ops.push(Op::Write { data, tw, retry_other, same_buffer });
+            }
         } else {
             let mut chunks = vec![];
             for _ in 0..rng.range(1, 4) {
